@@ -1680,10 +1680,15 @@ func ReadSharedReplay(cfg *common.Config, l *ctxload.Loader) (SharedInput, bool)
 func Run(cfg *common.Config) (*common.Report, error) {
 	rep := common.NewReport("C02")
 	rep.Correspondence = "Merklizer.Run.mmismatches: merklize_from_entries + Script.run_step (mz_proof, mz_entry, mz_jsonld_type, mz_root, t_verify; coq/Merklizer/Model.v, Script.v) vs merklize.MerklizeJSONLD, Merklizer.Proof / Entry / JSONLDType / Root and merkletree.VerifyProof, on the entries of the same document with recorded primitive hash tables"
-	rep.Rule = "documents from docgen (random schema trees, depth<=3; scoped contexts, arrays, named graphs, IRI/blank objects, every literal kind) and odd shapes; hasher: none configured (package default) or configured {poseidon, salted HashBytes, prime 65521, prime 2^31-1}; per merklizer ALL member paths (Proof, Entry, JSONLDType) and non-member paths of five families (proper prefixes, one-part extensions, sibling index n / n+1 and index on a scalar, one IRI changed, unrelated) plus the empty path. distinct = distinct (document, hasher, configured) triples; every merklizer has >= 1 entry."
+	rep.Rule = "documents from docgen (random schema trees, depth<=3; scoped contexts, arrays, named graphs, IRI/blank objects, every literal kind) and odd shapes; hasher: none configured (package default) or configured {poseidon, salted HashBytes, prime 65521, prime 2^31-1}; per merklizer ALL member paths (Proof, Entry, JSONLDType) and non-member paths of five families (proper prefixes, one-part extensions, sibling index n / n+1 and index on a scalar, one IRI changed, unrelated) plus the empty path. distinct = distinct (document, hasher, configured) triples; every merklizer has >= 1 entry. | slice programs: 6-14 random operations {make a buffer with spare capacity, sub-slice it, overwrite a cell, NewPath(buf...), copy a Path value, Append(buf...), Prepend(buf...)} on real merklize.Path values plus the fixed shapes of D35 / D36 / C02-j, evaluated by Merklizer.SliceRun.slmismatches (SliceModel.run_ops) and by a value-semantics oracle."
 	e := &Env{Cfg: cfg, Rep: rep, Loader: ctxload.New(), Prop: "c02"}
 	sh := &Shards{Env: e, Size: 10}
 	if cfg.Replay != "" {
+		if pg, ok := ReadSliceReplay(cfg); ok {
+			paths, bufs, wp, wb, wf := execSliceProg(pg.SliceOps)
+			fmt.Printf("replay: slice program well-formed=%v paths=%v expected=%v buffers=%v expected=%v\n", wf, paths, wp, bufs, wb)
+			return rep, SliceStream(cfg, rep, "C02", []SliceProg{pg})
+		}
 		if sin, ok := ReadSharedReplay(cfg, e.Loader); ok {
 			if s := e.SharedScenario(sin); s != nil {
 				fmt.Printf("replay: shared-tree scenario, %d documents, %d merklizers, %d steps\n", len(sin.Docs), len(s.Mzs), len(s.steps))
@@ -1787,6 +1792,10 @@ func Run(cfg *common.Config) (*common.Report, error) {
 			rep.Count(fmt.Sprintf("shared-merklizers:%d", len(s.Mzs)))
 			sh.AddCase(s)
 		}
+	}
+	// Path values, copies and caller buffers at the level of Go slices (Merklizer/SliceModel.v)
+	if err := SliceStream(cfg, rep, "C02", SliceProgs(cfg.Rng, cfg.Pick(400, 6000))); err != nil {
+		return nil, err
 	}
 	return rep, sh.Write("C02")
 }
